@@ -132,10 +132,37 @@ def check(prog, run):
         static = v.attr if isinstance(v, ast.Attribute) else None
         dyn = None
         init = c.methods.get("__init__")
-        if init is not None:
-            for n in own_nodes(init.node):
-                if isinstance(n, ast.Assign) and ast.unparse(n.targets[0]) == "self.severity" and isinstance(n.value, ast.IfExp):
-                    dyn = (ast.unparse(n.value.test), n.value.body.attr, n.value.orelse.attr)
+        if init is not None and any(isinstance(n, ast.Assign) and ast.unparse(n.targets[0]) == "self.severity" for n in own_nodes(init.node)):
+            # path form: the severity stored when the added member is required / optional (whatever the statement shape)
+            from .. import boolx
+            vals, tests = {}, set()
+            for req in (True, False):
+                def decide(t, req=req):
+                    if t.endswith(".required"):
+                        tests.add(t)
+                        return req
+                    return None
+                try:
+                    _ev, exits = boolx.walk_under(init.node, decide)
+                except ValueError as e:
+                    raise AnalysisError("C20.P3: %s.__init__: %s" % (c.name, e))
+                got = set()
+                for kind, st, env in exits:
+                    atoms = {a: b for a, b in env.items() if a not in boolx.META}
+                    last = None
+                    for x in env.get(boolx.STMTS, ()):
+                        if isinstance(x, ast.Assign) and ast.unparse(x.targets[0]) == "self.severity":
+                            last = boolx.path_value(env.get(boolx.STMTS, ()), x, x.value, atoms)
+                    got.add(last.attr if isinstance(last, ast.Attribute) else ("<%s>" % (ast.unparse(last) if last is not None else kind)))
+                vals[req] = got
+            if len(vals[True]) == 1 and len(vals[False]) == 1:
+                a, b = next(iter(vals[True])), next(iter(vals[False]))
+                if a == b and not tests:
+                    static = a
+                else:
+                    dyn = (sorted(tests)[0] if tests else "?", a, b)
+            else:
+                dyn = ("?", "|".join(sorted(vals[True])), "|".join(sorted(vals[False])))
         return static, dyn
     for c in classes:
         static, dyn = severity(c)
